@@ -75,10 +75,10 @@ type Run struct {
 
 	states, transitions, traces int64
 
-	replays map[string]ReplayFn
-	viols   map[string]*recorded // by signature
+	replays  map[string]ReplayFn
+	viols    map[string]*recorded // by signature
 	knownHit map[string]string
-	known   []finding
+	known    []finding
 
 	replayFile string
 	deadline   time.Time
@@ -168,13 +168,13 @@ func (r *Run) loadKnown() {
 // RegisterReplay binds a case kind to the function that re-executes it.
 func (r *Run) RegisterReplay(kind string, fn ReplayFn) { r.replays[kind] = fn }
 
-func (r *Run) SetRule(s string)         { r.rule = s }
-func (r *Run) Assume(s ...string)       { r.assume = append(r.assume, s...) }
-func (r *Run) Set(key string, v any)    { r.mu.Lock(); r.extra[key] = v; r.mu.Unlock() }
-func (r *Run) AddStates(n int64)        { atomic.AddInt64(&r.states, n) }
-func (r *Run) AddTransitions(n int64)   { atomic.AddInt64(&r.transitions, n) }
-func (r *Run) AddTraces(n int64)        { atomic.AddInt64(&r.traces, n) }
-func (r *Run) Evals() int64             { return r.evals.Load() }
+func (r *Run) SetRule(s string)       { r.rule = s }
+func (r *Run) Assume(s ...string)     { r.assume = append(r.assume, s...) }
+func (r *Run) Set(key string, v any)  { r.mu.Lock(); r.extra[key] = v; r.mu.Unlock() }
+func (r *Run) AddStates(n int64)      { atomic.AddInt64(&r.states, n) }
+func (r *Run) AddTransitions(n int64) { atomic.AddInt64(&r.transitions, n) }
+func (r *Run) AddTraces(n int64)      { atomic.AddInt64(&r.traces, n) }
+func (r *Run) Evals() int64           { return r.evals.Load() }
 
 // Note records harness-side trouble; it never changes the verdict.
 func (r *Run) Note(format string, a ...any) {
